@@ -394,6 +394,9 @@ func (p *Properties) Decode(pkt byte, b *bytes.Buffer) (n int, err error) {
 		case PropPayloadFormat:
 			p.PayloadFormat, offset, err = decodeByte(bt, offset)
 			p.PayloadFormatFlag = true
+			if err == nil && p.PayloadFormat > 1 {
+				err = ErrMalformedProperties // the payload format indicator is 0 or 1 [MQTT-3.3.2-4]
+			}
 		case PropMessageExpiryInterval:
 			p.MessageExpiryInterval, offset, err = decodeUint32(bt, offset)
 		case PropContentType:
